@@ -17,12 +17,16 @@ import (
 	"fmt"
 	"io"
 	"os"
+	"os/signal"
 	"path/filepath"
 	"regexp"
 	"sort"
 	"strings"
 	"sync"
+	"syscall"
 	"time"
+
+	"golang.org/x/sys/unix"
 
 	"github.com/gokrazy/rsync/internal/maincmd"
 	"github.com/gokrazy/rsync/internal/rsyncopts"
@@ -407,6 +411,84 @@ func suiteGated(h *H) {
 			}
 			h.emit(fmt.Sprintf("!gated seed=%d variant=%d frozen-at=%d", h.seed, vi, n), strings.SplitN(out, ":", 2)[0], v, true)
 			h.stat("gated.frozen")
+			os.RemoveAll(dst)
+		}
+		// ---- the basis changes while the transfer is in flight (C03): the receiver is frozen at a token
+		// boundary of the delta file, one byte of the old file is overwritten in place, the stream goes on.
+		// Success must mean the complete new content; anything else must be an error.
+		if vi == 0 {
+			for _, f := range files {
+				if !f.delta {
+					continue
+				}
+				for _, n := range positions {
+					for _, at := range []int64{10, 1500} {
+						dst := setup()
+						g := &gateReader{data: stream, gate: n, cut: -1, arrived: make(chan struct{}), release: make(chan struct{})}
+						done := runSession(dst, g)
+						mutated := false
+						select {
+						case <-g.arrived:
+							time.Sleep(time.Millisecond)
+							if stateOf(dst, f) == "old" {
+								if fh, err := os.OpenFile(filepath.Join(dst, f.name), os.O_WRONLY, 0); err == nil {
+									fh.WriteAt([]byte{f.old[at] ^ 0x5a}, at)
+									fh.Close()
+									mutated = true
+								}
+							}
+							close(g.release)
+						case out := <-done:
+							done <- out
+							close(g.release)
+						}
+						out := <-done
+						v := ""
+						if mutated {
+							b, err := os.ReadFile(filepath.Join(dst, f.name))
+							modOld := append([]byte{}, f.old...)
+							modOld[at] ^= 0x5a
+							switch {
+							case out == "ok" && (err != nil || !bytes.Equal(b, f.new)):
+								v = fmt.Sprintf("FAIL[C03] the basis of %q changed (byte %d) while the receiver was before stream byte %d; the session reported success but the file does not hold the source's content", f.name, at, n)
+							case out != "ok" && (err != nil || !(bytes.Equal(b, modOld) || bytes.Equal(b, f.new))):
+								v = fmt.Sprintf("FAIL[C03] the basis of %q changed while the receiver was before stream byte %d; the session failed (%s) and the path holds neither what was there nor the new content", f.name, n, strings.SplitN(out, ":", 2)[0])
+							}
+							h.stat("gated.basis-changed." + strings.SplitN(out, ":", 2)[0])
+						}
+						h.emit(fmt.Sprintf("!gated seed=%d variant=%d basis-changed-at=%d byte=%d", h.seed, vi, n, at), strings.SplitN(out, ":", 2)[0], v, mutated)
+						os.RemoveAll(dst)
+					}
+				}
+			}
+		}
+		// ---- writing fails during the session (file size limit, like a full disk or an exceeded quota):
+		// the session must fail, and every listed path holds its complete old or new state, nothing partial
+		for _, limit := range []uint64{1, 300, 640, 1024, 1400} {
+			dst := setup()
+			var oldLim unix.Rlimit
+			unix.Getrlimit(unix.RLIMIT_FSIZE, &oldLim)
+			signal.Ignore(syscall.SIGXFSZ)
+			unix.Setrlimit(unix.RLIMIT_FSIZE, &unix.Rlimit{Cur: limit, Max: oldLim.Max})
+			out := <-runSession(dst, &gateReader{data: stream, gate: -1, cut: -1, arrived: make(chan struct{}), release: make(chan struct{})})
+			unix.Setrlimit(unix.RLIMIT_FSIZE, &oldLim)
+			v := ""
+			w := inspect(dst, out != "ok")
+			for i := 0; i < 100 && w != "" && out != "ok"; i++ {
+				time.Sleep(4 * time.Millisecond)
+				w = inspect(dst, true)
+			}
+			if w != "" {
+				v = fmt.Sprintf("FAIL[C04] with writes failing beyond %d bytes per file (%s): %s", limit, strings.SplitN(out, ":", 2)[0], w)
+			} else if out == "ok" {
+				for _, f := range files {
+					if s := stateOf(dst, f); s != "new" {
+						v = fmt.Sprintf("FAIL[C01] with writes failing beyond %d bytes per file the session reported success but %q is %s", limit, shortName(f.name), s)
+					}
+				}
+			}
+			h.emit(fmt.Sprintf("!gated seed=%d variant=%d write-limit=%d", h.seed, vi, limit), strings.SplitN(out, ":", 2)[0], v, true)
+			h.stat("gated.write-limit." + strings.SplitN(out, ":", 2)[0])
 			os.RemoveAll(dst)
 		}
 		// ---- connection lost at byte N
